@@ -162,6 +162,13 @@ func runC17(c *Ctx) error {
 					q[2], q[3], blank = fmt.Sprintf("a=%d", p.a), fmt.Sprintf("b=%d%%20", p.b), ":trailing-blank"
 					p.b = p.a + 1000 // "differ": expectation below
 				}
+			case 2, 3: // an empty member written as a bare key (no '='): still an empty value of its own
+				if p.x == "" {
+					q[0], blank = "x", ":bare-member"
+				}
+				if p.y == "" {
+					q[1], blank = "y", ":bare-member"
+				}
 			}
 			// any order
 			for j := len(q) - 1; j > 0; j-- {
@@ -170,8 +177,15 @@ func runC17(c *Ctx) error {
 			}
 			var exps []expE
 			order := func(f1, f2 string) string { // members are listed in the order the parameters appear
-				i1 := strings.Index(strings.Join(q, "&"), f1+"=")
-				i2 := strings.Index(strings.Join(q, "&"), f2+"=")
+				pos := func(f string) int {
+					for i, kv := range q {
+						if kv == f || strings.HasPrefix(kv, f+"=") {
+							return i
+						}
+					}
+					return -1
+				}
+				i1, i2 := pos(f1), pos(f2)
 				if i1 < i2 {
 					return `"` + f1 + `", "` + f2 + `"`
 				}
